@@ -34,6 +34,9 @@ class C12Engine(SimEngine):
         res = Run(case).execute()
         out = {"violations": list(res.violations), "labels": list(res.labels), "stats": dict(res.stats),
                "inconclusive": res.inconclusive, "error": res.error}
+        if res.lib_error:
+            out["violations"].append({"props": ["C12"], "clause": "library/undocumented-exception-escaped", "detail": res.lib_error, "opno": -1})
+            return out
         if res.error or res.inconclusive:
             return out
         faulty = [h for h in res.history if h["faulty"] and not h["raised_at_call"]]
